@@ -706,6 +706,22 @@ def rule_R28_bitflags_or_assign(text, log):
 
 
 
+def rule_R29_iter_copied(text, log):
+    """`for X in E.iter().copied() { B }` -> `for vx_r_X in E { let X = *vx_r_X; B }` (E a slice reference: the same elements, by value)"""
+    out = text
+    rx = re.compile(r'\bfor\s+([A-Za-z_]\w*)\s+in\s+([^{]+?)\s*\.\s*iter\(\)\s*\.\s*copied\(\)\s*\{')
+    while True:
+        mask = code_mask(out)
+        mm = next((m for m in rx.finditer(out) if mask[m.start()]), None)
+        if not mm:
+            return out
+        x, e = mm.group(1), mm.group(2).strip()
+        new = 'for vx_r_%s in %s { let %s = *vx_r_%s;' % (x, e, x, x)
+        log.append(('R29', norm_ws(mm.group(0)), new))
+        out = out[:mm.start()] + new + out[mm.end():]
+
+
+
 def rule_R5_labelled_for(text, log):
     """'l: for _ in 0..n { B }  ->  { let mut vx_i: usize = 0; 'l: while vx_i < n { vx_i += 1; B } }
     only for the shape `'l: for _ in 0..<ident> {` (counter unused)"""
@@ -1194,7 +1210,7 @@ class Unit(object):
         self.lost_aids = []
         self.gone_fns = []
         self.late_hints = False
-        self.rules = set(['R1', 'R2', 'ATTR', 'R4', 'R5', 'R6', 'R10', 'R11', 'R14', 'R15', 'R17', 'R22', 'R23', 'R25', 'R26', 'R27', 'R28'])
+        self.rules = set(['R1', 'R2', 'ATTR', 'R4', 'R5', 'R6', 'R10', 'R11', 'R14', 'R15', 'R17', 'R22', 'R23', 'R25', 'R26', 'R27', 'R28', 'R29'])
         self.unit_props = []
         self.lemmas = []
         self.tmpl_fns = []          # hand-written exec/proof fns in template (name, props)
@@ -1270,6 +1286,8 @@ class Unit(object):
                 text = rule_R27_map_collect(text, log)
             if 'R28' in self.rules:
                 text = rule_R28_bitflags_or_assign(text, log)
+            if 'R29' in self.rules:
+                text = rule_R29_iter_copied(text, log)
         self.last_guard_renames = [r[3] for r in log if len(r) > 3]
         for r in log:
             self.rule_log.append({'rule': r[0], 'before': r[1], 'after': r[2], 'where': ctx})
